@@ -180,6 +180,11 @@ def gen_design(rng, opts=None):
             design["bundles"].append({"name": f"B{k}", "tree": rand_bundle_tree(rng, rng.randint(0, 1))})
     if opts.get("pairs", True):
         design["bundles"].append(copy.deepcopy(DIFF))
+        if opts.get("ibtypes", False) and rng.random() < 0.7:
+            # a flat bundle of one-bit members for custom `InstanceBundleType`s
+            names = ["x", "y", "z", "u", "v"]
+            rng.shuffle(names)
+            design["bundles"].append({"name": "IB0", "ib": True, "tree": {"sigs": [leaf_sig(n, 1) for n in names[:rng.randint(1, 3) if not opts.get("ib_prob") else rng.randint(2, 3)]], "subs": []}})
     nmods = rng.randint(1, opts.get("max_modules", 4))
     for mi in range(nmods):
         name = "Top" if mi == nmods - 1 else f"M{mi}"
@@ -200,8 +205,12 @@ def gen_design(rng, opts=None):
             r = rng.random()
             if r < 0.15 and opts.get("arrays", True):
                 inst["array"] = rng.randint(2, 3)
-            elif r < 0.25 and opts.get("pairs", True) and not inst["_bports"] and all(w == 1 for _, _, w in inst["_iface"]):
-                inst["pair"] = ["p", "n"]
+            elif r < 0.15 + opts.get("pair_prob", 0.10) and opts.get("pairs", True) and not inst["_bports"] and all(w == 1 for _, _, w in inst["_iface"]):
+                ibs = [b for b in design["bundles"] if b.get("ib")]
+                if ibs and rng.random() < opts.get("ib_prob", 0.6):
+                    inst["pair"], inst["pair_of"] = [x["n"] for x in ibs[0]["tree"]["sigs"]], ibs[0]["name"]
+                else:
+                    inst["pair"] = ["p", "n"]
             g.insts.append(inst)
         for inst in g.insts:
             scalar_ports = [(p, w) for (p, path, w) in inst["_iface"] if not path]
@@ -221,10 +230,10 @@ def gen_design(rng, opts=None):
                         c = g.scalar(ww, 2, allow_ref=False)
                 elif "pair" in inst:
                     if r < 0.3:
-                        c = {"k": "bundle", "n": g.bundle_inst("Diff")}
+                        c = {"k": "bundle", "n": g.bundle_inst(inst.get("pair_of", "Diff"))}
                     elif r < 0.55 and opts.get("anon", True):
                         # an anonymous bundle (also as dict shorthand), members in either order
-                        fields = [["p", g.scalar(w, 1, allow_ref=False)], ["n", g.scalar(w, 1, allow_ref=False)]]
+                        fields = [[mem, g.scalar(w, 1, allow_ref=False)] for mem in inst["pair"]]
                         rng.shuffle(fields)
                         c = {"k": "anon", "fields": fields}
                     else:
